@@ -25,3 +25,41 @@ package phase0
 //@ func (a *AttesterSlashing) HashTreeRoot(spec, hFn) r
 //@   trusted
 //@   opt noalloc
+
+// ---------------------------------------------------------------- operation validity predicates (used by gossip validation, C12)
+// process_voluntary_exit / process_proposer_slashing / attestation validity as
+// uninterpreted predicates of (spec, context, state, operation): assumed here;
+// their own verification belongs to C03.
+//@ sort SpecP = *common.Spec
+//@ sort EpcP = *common.EpochsContext
+//@ sort StateI = common.BeaconState
+//@ sort SVExitT = SignedVoluntaryExit
+//@ sort PSlashT = ProposerSlashing
+//@ sort IdxAttT = IndexedAttestation
+//@ ufun exit_ok(SpecP, EpcP, StateI, SVExitT) bool
+//@ ufun pslash_ok(SpecP, EpcP, StateI, PSlashT) bool
+//@ ufun pslash_nosig_ok(SpecP, PSlashT) bool
+//@ ufun idxatt_ok(SpecP, EpcP, StateI, IdxAttT) bool
+// the full proposer-slashing validation includes the signature-free part (by definition of the two predicates)
+//@ axiom pslash_includes_nosig: forall s SpecP, e EpcP, st StateI, p PSlashT :: {pslash_ok(s, e, st, p)} pslash_ok(s, e, st, p) ==> pslash_nosig_ok(s, p)
+
+//@ func ValidateVoluntaryExit(spec, epc, state, signedExit) err
+//@   trusted
+//@   opt noalloc
+//@   ensures (err == nil) == exit_ok(spec, epc, state, *signedExit)
+
+//@ func ValidateProposerSlashingNoSignature(spec, ps) err
+//@   trusted
+//@   opt noalloc
+//@   ensures (err == nil) == pslash_nosig_ok(spec, *ps)
+
+//@ func ValidateProposerSlashing(spec, epc, state, ps) err
+//@   trusted
+//@   opt noalloc
+//@   ensures (err == nil) == pslash_ok(spec, epc, state, *ps)
+//@   ensures err == nil ==> pslash_nosig_ok(spec, *ps)
+
+//@ func ValidateIndexedAttestation(spec, epc, state, indexedAttestation) err
+//@   trusted
+//@   opt noalloc
+//@   ensures (err == nil) == idxatt_ok(spec, epc, state, *indexedAttestation)
